@@ -589,6 +589,13 @@ def do_check(
             raise SemanticError()
     except SemanticError:
         return 1, "input does not satisfy the ISLa constraint", Nothing
+    except Exception as exc:
+        print(
+            f"isla {command}: error: An exception ({type(exc).__name__}) occurred "
+            + f"while evaluating the constraint, message: `{exc}`",
+            file=stderr,
+        )
+        sys.exit(DATA_FORMAT_ERROR)
 
     return 0, "input satisfies the ISLa constraint", Some(tree)
 
